@@ -150,6 +150,8 @@ def word_triggers(w):
     return out
 
 
+_PLAIN_WORD = re.compile(r"^[A-Za-z0-9_./~+%-]+$")
+_GLUED_HASH = re.compile(r"(?<=[^ \t\n])#")
 _RECOGNISED = re.compile(r"^(?:echo|ls|git|grep|cat|pip|python3|cd|make|docker|rm|tar|curl|ssh|sudo|time|nice)[ \t]+"
                          r"(?:[A-Za-z_][A-Za-z0-9_]*(?![\w.(\[/:,=])|[0-9]+(?![\w.])|--?[A-Za-z]|\$[A-Za-z]|['\"])")
 
@@ -276,8 +278,14 @@ class XGen:
             if allow_cont and self.chance(1, 14):
                 self.lab("cmd:backslash-continuation")
                 conts = [" \\\n", "  \\\n", " \\\n  ", " \\\n        ", " \\\n\t", "\\\n ", "\\\n"]
-                if not self.off("C17-F13"):
-                    conts = conts[:-1]      # backslash-newline glued on both sides joins two words into one
+                if not self.off("C17-F13") or not _PLAIN_WORD.match(p):
+                    # backslash-newline glued on both sides joins two words into one (F13); only plain words are joined:
+                    # the formatter formats the second half as tokens of its own (an f-string's fields, `k = v` ...), which
+                    # is F13's root cause in a shape that its predicate (the inserted indent) does not describe
+                    conts = conts[:-1]
+                if _GLUED_HASH.search(out[out.rfind("\n") + 1:]) and not self.off("C17-F17"):
+                    out += self.gap() + p   # a `#` inside a word of a physical line that ends in a backslash
+                    continue
                 out += self.pick(conts) + p
             else:
                 out += self.gap() + p
